@@ -18,7 +18,7 @@ def run(ctx):
     ctx.lake_build(["Slock.Properties.C14"])
     ctx.audit("Slock.Properties.C14", ["Slock.C14.decode_total", "Slock.C14.all_decode_safe"])
     for pkg in ("protocol", "server"):
-        exe = ctx.build_harness(pkg)
+        exe = ctx.build_harness(pkg, only=["zz_verif_codec_test.go"])
         if exe:
             outdir = ctx.run_harness(exe, "codec", 100 if ctx.tier == "quick" else 3000)
             if outdir:
